@@ -78,8 +78,14 @@ type tree struct {
 	rootNode *pidNode            // Logical root node (its pid may be nil if cleared).
 	pids     map[string]*pidNode // Index: PID.ID() -> pidNode.
 	names    map[string]*pidNode // Index: PID.Name() -> pidNode.
-	counter  atomic.Int64        // Number of nodes currently registered.
-	noSender *PID                // Cached NoSender (set on first root add).
+	// shadowed remembers, per name, the nodes whose name-index entry was taken
+	// over by a later node of the same name (a child may share its name with a
+	// top-level actor or with a child of another parent). deleteNode hands the
+	// entry back to the most recent survivor instead of leaving a live actor
+	// unreachable by name.
+	shadowed map[string][]*pidNode
+	counter  atomic.Int64 // Number of nodes currently registered.
+	noSender *PID         // Cached NoSender (set on first root add).
 }
 
 // newTree creates and returns a new PID tree.
@@ -186,6 +192,12 @@ func (x *tree) addNodeLocked(parent, pid *PID) error {
 	childNode.watchers[parentID] = parent
 
 	x.pids[id] = childNode
+	if prev, taken := x.names[name]; taken && prev != childNode {
+		if x.shadowed == nil {
+			x.shadowed = make(map[string][]*pidNode)
+		}
+		x.shadowed[name] = append(x.shadowed[name], prev)
+	}
 	x.names[name] = childNode
 	x.counter.Add(1)
 	return nil
@@ -406,6 +418,28 @@ func (x *tree) deleteNode(pid *PID) {
 		delete(x.pids, n.id)
 		if current, ok := x.names[n.name]; ok && current == n {
 			delete(x.names, n.name)
+			// hand the name back to the most recent surviving node it was taken from
+			if prevs := x.shadowed[n.name]; len(prevs) > 0 {
+				x.names[n.name] = prevs[len(prevs)-1]
+				if len(prevs) == 1 {
+					delete(x.shadowed, n.name)
+				} else {
+					x.shadowed[n.name] = prevs[:len(prevs)-1]
+				}
+			}
+		} else if prevs := x.shadowed[n.name]; len(prevs) > 0 {
+			// n lost the entry earlier: it must not be handed back to a dead node
+			kept := prevs[:0]
+			for _, prev := range prevs {
+				if prev != n {
+					kept = append(kept, prev)
+				}
+			}
+			if len(kept) == 0 {
+				delete(x.shadowed, n.name)
+			} else {
+				x.shadowed[n.name] = kept
+			}
 		}
 		n.parentNode = nil
 		n.pid.Store(nil)
@@ -572,6 +606,7 @@ func (x *tree) reset() {
 	x.rootNode = newPidNode(nil)
 	clear(x.pids)
 	clear(x.names)
+	clear(x.shadowed)
 	x.counter.Store(0)
 	// Keep cached noSender (still valid for same ActorSystem instances).
 }
